@@ -416,6 +416,23 @@ Theorem C10_conc_phases_crash_safe :
 Proof. exact conc_phases_crash_safe_src. Qed.
 Print Assumptions C10_conc_phases_crash_safe.
 
+(* Completed effects under concurrency: after any such history, a Push that has returned (its
+   batch ran until all calls had returned) has stored its blob, and a manifest that was not there
+   before has its entry in index.json -- whatever ran at the same time. *)
+Theorem C10_conc_completed_push :
+  forall (H : list N -> N) (shuffle : nat -> list entry -> list entry),
+    (forall c l e, In e (shuffle c l) <-> In e l) ->
+    forall (ps : list phase) (calls : list ccall) (is : list nat) (i : nat) (d : N) (cont : list N) (man : bool),
+      phases_quiet H shuffle src_inplace src_unlink_first init ps = true ->
+      let s := run_phases H shuffle src_inplace src_unlink_first init ps in
+      let c := sched shuffle (start H s calls) is in
+      nth_error calls i = Some (CPush d cont man) -> H cont = d -> quietb c = true ->
+      has (cfs c) (FBlob d) /\
+      (exists_file (sfs s) (FBlob d) = false -> man = true ->
+       exists l r, read_index (cfs c) = Some l /\ In (d, r) l).
+Proof. exact conc_completed_push_src. Qed.
+Print Assumptions C10_conc_completed_push.
+
 (* Without indexLock (the same threads, the lock ignored) the first statement is false: two Tag
    calls, the earlier snapshot published last; both have returned, the resolver has both
    references, index.json has one. *)
